@@ -87,7 +87,7 @@ def run_bounded(chk):
             fails.append((tag, {**info, "n_q": len(Q), "result_shape": list(got.shape)}))
             return
         err = np.abs(got - exact)
-        bad = np.nonzero(err > 1e-7 * scale)[0]
+        bad = np.nonzero(err > 1e-7 * scale * max(1.0, abs(float(density))))[0]     # relative to density * measure
         if len(bad):
             i = int(bad[0])
             fails.append((tag, {**info, "q": Q[i].tolist(), "density": density, "observed": [got[i].real, got[i].imag],
